@@ -441,10 +441,12 @@ func checkPattern(r *lib.Run, idx int, pat core.BuildLabel, pkgs []string) {
 	var state *core.BuildState
 	if k := len(freeStates); k > 0 {
 		state, freeStates = freeStates[k-1], freeStates[:k-1]
-		state.Graph = core.NewGraph()
 	} else {
 		state = iplib.NewState()
 	}
+	// always a graph of our own: the state's idle cycle detector (fires after 5 s) walks the graph the
+	// state was created with, concurrently with whoever fills it
+	state.Graph = core.NewGraph()
 	defer func() {
 		newStateMu.Lock()
 		freeStates = append(freeStates, state)
